@@ -605,7 +605,7 @@ theorem normalize_args_transparent_of_agree (s : Schema) (hcc : customLti s) (hk
 theorem extracted_literals_are_valid (s : Schema) (defs : List ArgDef) (as : List Argument) (st : NState)
     (hes : EntriesOK s st.entries) (ha : ArgsOK s defs as) :
     ∀ e ∈ (normArgs s defs as st).2.entries, isValidLiteralValue s e.type (some e.lit) = true :=
-  fun e he => (normArgs_entriesOK s defs as st hes ha e he).2.2
+  fun e he => (normArgs_entriesOK s defs as st hes ha e he).2.2.1
 
 /-- every literal the walk records is valid, so (by `literalToInput_agree`) every SynthArg is a valid value of its
 synthetic variable's declared type: `getVariableValues` cannot fail on them -/
@@ -613,7 +613,7 @@ theorem synth_args_are_valid_inputs (s : Schema) (hcc : customLti s) (defs : Lis
     (st : NState) (hes : EntriesOK s st.entries) (ha : ArgsOK s defs as) :
     ∀ e ∈ (normArgs s defs as st).2.entries, isValidInputValue s e.type (lti e.lit) = true := by
   intro e he
-  obtain ⟨h1, h2, h3⟩ := normArgs_entriesOK s defs as st hes ha e he
+  obtain ⟨h1, h2, h3, _⟩ := normArgs_entriesOK s defs as st hes ha e he
   exact (lti_agree s hcc e.type e.lit [] h1 h2 h3).1
 
 /-- `normalize_original_unmodified` is trivial here: the model is a pure function, the input document is a value.
